@@ -30,6 +30,9 @@
 //	    reads  _ | data:err:extra;...  one entry per Read the consumer performs: the bytes and the
 //	           error (n nil, e io.EOF, x other) the wrapped body returns, and how many bytes the
 //	           consumer's buffer is longer than the data. data = hex or p<len>.<start> (pattern)
+//	           C / Cx: the consumer calls Close at this point (the wrapped body's Close returns nil / an
+//	           error; the scripted body stays readable after Close, like an ioutil.NopCloser). A token
+//	           without any C entry gets one Close after the last read.
 //	           N<k>: the body is http.NoBody and the consumer reads it k times
 package c19
 
@@ -62,7 +65,7 @@ func (P) ID() string { return "C19" }
 func (P) Rule() string {
 	return "case = either one logging run (`m` op per message, then `run`): 1..8 messages (requests/responses, request+response pairs sharing an id, random pseudo-header " +
 		"fields, header maps with repeated/empty/binary/long (> 64 KiB) values, Host/Content-Length/Transfer-Encoding on the boundaries between struct field and header map (explicit zero length, map only, field only, stale map entries), bodies 0..MiB delivered by a scripted body in random chunkings (one Read returns 1 byte .. 1 MiB) with " +
-		"EOF-with-data / separate EOF / early stop / mid-body error / reads after EOF, consumer buffers of random slack) logged concurrently " +
+		"EOF-with-data / separate EOF / early stop / mid-body error / reads after EOF, consumer buffers of random slack, consumer call sequences with Close anywhere among the reads / twice / failing / absent) logged concurrently " +
 		"to one real marbl.Stream (writer: a recorder that also retains the slices it is handed; via marbl.Modifier in 1/5, into the real marbl.Handler " +
 		"with a real websocket subscriber in 2/5 of the cases; or, `rung`, 2..6 messages under a controlled schedule: the writer goroutine is held inside every Write, " +
 		"message starts and body reads are released one gate at a time by a seeded scheduler that waits for all goroutines to block) and parsed back with marbl.Reader and an independent parser, " +
@@ -362,6 +365,7 @@ type readStep struct {
 	data  []byte
 	err   byte // n e x
 	extra int
+	close bool // a Close call (err: n | x), not a Read
 }
 
 type hkv struct {
@@ -379,8 +383,9 @@ type msg struct {
 	cl     int64
 	te     []string // nil = nil
 	hdr    []hkv
-	reads  []readStep
-	noBody bool // Body = http.NoBody; reads = what the consumer's reads of it return
+	reads  []readStep // the Read calls among calls
+	calls  []readStep // every call the consumer makes on the (wrapped) body, in order
+	noBody bool       // Body = http.NoBody; reads = what the consumer's reads of it return
 }
 
 var errScripted = errors.New("c19: scripted body failure")
@@ -528,10 +533,19 @@ func parseMsg(tok string) (*msg, bool) {
 		}
 		m.noBody = true
 		for ; k > 0; k-- {
-			m.reads = append(m.reads, readStep{nil, 'e', 0})
+			m.reads = append(m.reads, readStep{data: nil, err: 'e'})
 		}
+		m.calls = m.reads
 	} else if f[8] != "_" {
 		for _, r := range strings.Split(f[8], ";") {
+			if r == "C" || r == "Cx" {
+				c := readStep{close: true, err: 'n'}
+				if r == "Cx" {
+					c.err = 'x'
+				}
+				m.calls = append(m.calls, c)
+				continue
+			}
 			p := strings.Split(r, ":")
 			if len(p) != 3 || len(p[1]) != 1 || !strings.Contains("nex", p[1]) {
 				return nil, false
@@ -541,7 +555,8 @@ func parseMsg(tok string) (*msg, bool) {
 			if !ok || err != nil || ex < 0 {
 				return nil, false
 			}
-			m.reads = append(m.reads, readStep{d, p[1][0], ex})
+			m.reads = append(m.reads, readStep{data: d, err: p[1][0], extra: ex})
+			m.calls = append(m.calls, readStep{data: d, err: p[1][0], extra: ex})
 		}
 	}
 	return m, true
@@ -549,8 +564,9 @@ func parseMsg(tok string) (*msg, bool) {
 
 // scriptBody is the wrapped body: read k returns the k-th scripted result.
 type scriptBody struct {
-	steps  []readStep
-	i      int
+	steps  []readStep // results of the Read calls, in order
+	closes []byte     // results of the Close calls, in order (n | x); nil beyond
+	i, ci  int
 	closed bool
 	gate   func() // controlled schedules: called at the start of every Read
 }
@@ -567,12 +583,22 @@ func (s *scriptBody) Read(b []byte) (int, error) {
 	n := copy(b, st.data)
 	return n, errOf(st.err)
 }
-func (s *scriptBody) Close() error { s.closed = true; return nil }
+// Close: the k-th call returns the k-th scripted result; the body stays readable (ioutil.NopCloser over
+// an in-memory reader, which is what a modifier typically installs).
+func (s *scriptBody) Close() error {
+	s.closed = true
+	if s.ci < len(s.closes) {
+		s.ci++
+		return errOf(s.closes[s.ci-1])
+	}
+	return nil
+}
 
 type got struct {
 	n    int
 	err  error
 	data []byte
+	close bool
 }
 
 type pair struct{ k, v string }
@@ -733,6 +759,11 @@ func doLog(toks []string, mode string, seed uint64, opText string) core.Result {
 		req := &http.Request{Method: "GET", URL: u, Proto: "HTTP/1.1", Header: http.Header{}}
 		var res *http.Response
 		sb := &scriptBody{steps: m.reads}
+		for _, c := range m.calls {
+			if c.close {
+				sb.closes = append(sb.closes, c.err)
+			}
+		}
 		if g != nil {
 			sb.gate = func() { g.waitRead(i) }
 		}
@@ -991,7 +1022,11 @@ func doLog(toks []string, mode string, seed uint64, opText string) core.Result {
 		}
 		sort.Strings(hs)
 		for _, g := range gots[i] {
-			rets = append(rets, strconv.Itoa(g.n)+errLetter(g.err))
+			if g.close {
+				rets = append(rets, "C"+errLetter(g.err))
+			} else {
+				rets = append(rets, strconv.Itoa(g.n)+errLetter(g.err))
+			}
 		}
 		out = append(out, fmt.Sprintf("m%d=%s|%s|%s", i, joinOr(",", hs), joinOr(",", ds), joinOr(",", rets)))
 
@@ -1022,13 +1057,21 @@ func doLog(toks []string, mode string, seed uint64, opText string) core.Result {
 				}
 			}
 		}
-		// (b) wrapper transparency
+		// (b) wrapper transparency, for the whole sequence of Read / Close calls the consumer made
 		var consumed []byte
 		sawEOF := m.noBody && m.kind == 'q' // http.NoBody of a request is not wrapped: an empty body is at end-of-file
+		nReads := 0
 		for k, g := range gots[i] {
-			st := m.reads[k]
+			st := m.calls[k]
+			if g.close {
+				if g.err != errOf(st.err) {
+					fail1("wrapper", "message %d call %d: Close through the wrapper returned %v, the body's Close returns %v", i, k, g.err, errOf(st.err))
+				}
+				continue
+			}
+			nReads++
 			if g.n != len(st.data) || g.err != errOf(st.err) || !bytes.Equal(g.data, st.data) {
-				fail1("wrapper", "message %d read %d: wrapper returned (%d,%v), the body returned (%d,%v) (or different bytes)", i, k, g.n, g.err, len(st.data), errOf(st.err))
+				fail1("wrapper", "message %d call %d (Read): wrapper returned (%d,%v), the body returns (%d,%v) for that call (or different bytes)", i, k, g.n, g.err, len(st.data), errOf(st.err))
 			}
 			consumed = append(consumed, g.data...)
 			if g.err == io.EOF {
@@ -1052,8 +1095,8 @@ func doLog(toks []string, mode string, seed uint64, opText string) core.Result {
 			if last.terminal != sawEOF {
 				fail1("terminal", "message %d: last data frame terminal=%v but body reached EOF=%v", i, last.terminal, sawEOF)
 			}
-		} else if len(gots[i]) > 0 {
-			fail1("body", "message %d: %d reads but no data frame", i, len(gots[i]))
+		} else if nReads > 0 {
+			fail1("body", "message %d: %d reads but no data frame", i, nReads)
 		}
 		if !sawEOF {
 			for k, f := range dfs {
@@ -1174,7 +1217,13 @@ func logWorker(e *workerEnv) {
 		}
 		wrapped = e.res.Body
 	}
-	for k, st := range m.reads {
+	explicitClose := false
+	for k, st := range m.calls {
+		if st.close {
+			explicitClose = true
+			*e.gots = append(*e.gots, got{close: true, err: wrapped.Close()})
+			continue
+		}
 		buf := make([]byte, len(st.data)+st.extra)
 		n, err := wrapped.Read(buf)
 		g := got{n: n, err: err}
@@ -1186,7 +1235,9 @@ func logWorker(e *workerEnv) {
 			runtime.Gosched()
 		}
 	}
-	wrapped.Close()
+	if !explicitClose {
+		wrapped.Close()
+	}
 }
 
 type ex struct{ queue []string }
